@@ -461,6 +461,40 @@ def calm (g : Nat) (k : Kind) : Spec → List Op → Prop
                 overtakesLv s.levels g i = false)
     ∧ calm g k (s.step op).1 ops
 
+/-- `calm` as a decision procedure (for the non-vacuity examples) -/
+def calmB (g : Nat) (k : Kind) : Spec → List Op → Bool
+  | _, [] => true
+  | s, op :: ops =>
+    (match op with
+     | .queue _ i => decide (levelOf s.levels g ≤ levelOf s.levels i)
+     | .clear => false
+     | .conf => true
+     | .deq =>
+       match (s.step .deq).2 with
+       | .entry (some (k', i)) => decide (k' = k ∧ i = g) || !(overtakesLv s.levels g i)
+       | _ => true)
+    && calmB g k (s.step op).1 ops
+
+theorem calm_of_calmB (g : Nat) (k : Kind) : ∀ (ops : List Op) (s : Spec), calmB g k s ops = true → calm g k s ops := by
+  intro ops
+  induction ops with
+  | nil => intro s _; trivial
+  | cons op ops ih =>
+    intro s h
+    simp only [calmB, Bool.and_eq_true] at h
+    refine ⟨?_, ih _ h.2⟩
+    have h1 := h.1
+    cases op with
+    | queue k' i => simpa using h1
+    | clear => simp at h1
+    | conf => trivial
+    | deq =>
+      intro k' i he hne
+      simp only [he, Bool.or_eq_true, decide_eq_true_eq, Bool.not_eq_true'] at h1
+      rcases h1 with h1 | h1
+      · exact absurd h1 hne
+      · exact h1
+
 /-- number of dequeues executed while a request of kind `k` may be sent (for a notification: all
     dequeues; for an indication: those with no confirmation outstanding) -/
 def progressDeqs (k : Kind) : Spec → List Op → Nat
